@@ -23,7 +23,9 @@ RULE = ('Hypothesis draws a resource (1-3 lexicons, LMF 1.0-1.3, extensions buil
         'documents with exactly 999/1000/1001/2000/2001 synsets / entries / sense relations '
         '(BATCH_SIZE boundaries); a third adds universes of lexicons that reuse each other\'s '
         'identifiers (two versions, unrelated lexicon with the same ids, extension chains), one '
-        'file per lexicon. Non-trivial: >=1 entry and >=1 synset and one of metadata, tag, '
+        'file per lexicon; a fourth first runs a history of adds, failing adds, removals and reopens '
+        'of *other* lexicons in the same process and database and then adds the resource under test. '
+        'Non-trivial: >=1 entry and >=1 synset and one of metadata, tag, '
         'pronunciation, count, frame, example, definition, proposed ILI, special character, '
         'extension; distinct by fingerprint of the model.')
 ASSUMPTIONS = [
@@ -185,6 +187,85 @@ def _shared_classify(case):
 
 
 # ---------------------------------------------------------------------------
+# the content reported for a lexicon does not depend on what happened to the database before
+
+@st.composite
+def _history_cases(draw):
+    prof = gen.Profile(max_entries=3, max_synsets=3)
+    # the earlier lexicons use other ILIs: the shared ILI inventory (which keeps the first
+    # ILIDefinition it saw, also after a removal) is not part of a lexicon's content
+    a = draw(gen.resources(gen.Profile(max_entries=3, max_synsets=3, ili_pool=('j1', 'j2')),
+                           max_lexicons=2, extensions=False))
+    b = draw(gen.resources(prof, max_lexicons=2))
+    ren = {lx['id']: 'h' + lx['id'] for lx in b['lexicons']}
+    for lx in b['lexicons']:
+        lx['id'] = ren[lx['id']]
+        if lx.get('extends'):
+            lx['extends']['id'] = ren.get(lx['extends']['id'], lx['extends']['id'])
+    pool = ['add_a', 'add_bad', 'remove_a', 'reopen', 'add_bad_mem']
+    ops = ['add_a', draw(st.sampled_from(['add_bad', 'add_bad_mem']))] + \
+        draw(st.lists(st.sampled_from(pool), max_size=2)) + \
+        draw(st.sampled_from([['remove_a'], ['remove_a'], []])) + \
+        draw(st.lists(st.sampled_from(pool), max_size=2))
+    return {'before': a, 'resource': b, 'ops': ops, 'pos': draw(st.integers(0, 50)),
+            'style': draw(xmlw.styles())}
+
+
+def history_oracle(case):
+    """add / failing add / remove of other lexicons first; then the resource under test."""
+    global _current_db
+    import sqlite3
+    import wn
+    from .c06 import corrupt, corruptions
+    a, b = case['before'], case['resource']
+    d = env.new_dir('c01h')
+    _current_db = env.fresh_db()
+    fa = xmlw.write(a, d / 'a.xml', None)
+    cands = [c for c in corruptions(a) if c[0] in ('sense-synset', 'synset-relation-target',
+                                                    'sense-relation-target')]
+    for i, op in enumerate(case['ops']):
+        if op == 'add_a':
+            wn.add(fa, progress_handler=None)
+        elif op in ('add_bad', 'add_bad_mem') and cands:
+            kind, pos = cands[(case['pos'] + i) % len(cands)]
+            bad = corrupt(a, kind, pos)
+            for lx in bad['lexicons']:
+                lx['id'] = 'bad' + lx['id']     # not installed yet, so it is really inserted
+            try:
+                if op == 'add_bad':
+                    wn.add(xmlw.write(bad, d / f'bad{i}.xml', None), progress_handler=None)
+                else:
+                    wn.add_lexical_resource(bad, progress_handler=None)
+            except (wn.Error, sqlite3.Error):
+                pass
+        elif op == 'remove_a':
+            for lx in wn.lexicons():
+                wn.remove(lx.specifier(), progress_handler=None)
+        elif op == 'reopen':
+            _current_db.reopen()
+    for lx in wn.lexicons():
+        wn.remove(lx.specifier(), progress_handler=None)
+    f = xmlw.write(b, d / 'b.xml', case['style'])
+    wn.add(f, progress_handler=None)
+    wn.add(f, progress_handler=None)
+    out: list[Disc] = []
+    _check_db(b, out)
+    return out
+
+
+def _history_classify(case):
+    tags = gen.resource_tags(case['resource'])
+    ops = case['ops']
+    for o in set(ops):
+        tags.append('history-op:' + o)
+    failed_then_removed = any(o.startswith('add_bad') for o in ops) and 'remove_a' in ops \
+        and 'add_a' in ops
+    if failed_then_removed:
+        tags.append('history:failed-add-then-removal')
+    return failed_then_removed and 'entry' in tags, tags
+
+
+# ---------------------------------------------------------------------------
 # batch-boundary family
 
 KINDS = ['synsets', 'entries', 'sense_relations']
@@ -293,6 +374,13 @@ SUBS = [
         sample=lambda c: {'lexicons': [gen.spec_of(x) for x in c['universe']['lexicons']]},
         fingerprint=lambda c: fingerprint(c['universe']),
         require_tags=('ids-shared-between-lexicons',)),
+    Sub('content-after-history', history_oracle, _history_classify,
+        strategy=lambda tier: _history_cases(), budget={'quick': 25, 'thorough': 250},
+        sample=lambda c: {'ops': c['ops'],
+                          'before': [gen.spec_of(x) for x in c['before']['lexicons']],
+                          'resource': [gen.spec_of(x) for x in c['resource']['lexicons']]},
+        fingerprint=lambda c: fingerprint([c['before'], c['resource'], c['ops']]),
+        require_tags=('history:failed-add-then-removal',)),
     Sub('batch-boundary', batch_oracle, _batch_classify, enumerate=_batch_enum,
         exhaustive_note='documents with exactly 999..2001 elements of one kind '
                         '(synsets / entries / sense relations)',
